@@ -1,3 +1,5 @@
+//go:build go1.23
+
 package dkg
 
 // C12, tECDSA key generation: the six receiving states of the DKG protocol
